@@ -1,6 +1,7 @@
 /-
 Executable checks of the C12 round-trip statements (`Properties/C12RoundTrip.lean`) on concrete histories, and the
-recorded counterexample that forces the hypothesis `NoShadow`.
+recorded counterexamples that force the hypotheses `NoShadow` and `StrippedNames`; descriptors with padded names on
+which the reader's whitespace stripping decides the outcome.
 -/
 import CassisModel.Spec.TsXmlRoundTrip
 
@@ -57,7 +58,10 @@ def swapPairs {α} : List α → List α
 def perms : List (Descriptor → Descriptor) :=
   [id, List.reverse, rot 1, rot 2, rot 3, swapPairs, fun l => (rot 1 l).reverse, fun l => swapPairs l.reverse]
 
-def hyps (ops : List TsOp) : Bool := userOnlyNoDocB Gen.consts ops && noShadowB (run ops)
+/-- Boolean `StrippedNames` (evaluated by the compiler; for the kernel see `noPad` in `Proofs/TsXmlStrip.lean`) -/
+def strippedNamesB (ts : TypeSystem) : Bool := decide (StrippedNames Gen.consts ts)
+
+def hyps (ops : List TsOp) : Bool := userOnlyNoDocB Gen.consts ops && noShadowB (run ops) && strippedNamesB (run ops)
 
 /-- all permutations above -/
 def check (ops : List TsOp) : Bool := perms.all (checkPerm ops)
@@ -228,7 +232,9 @@ def ownNames (ts : TypeSystem) (n : String) : Option (List String) :=
 def counterTop : Except Err TypeSystem := load Gen.consts (["uima.cas.TOP"].filterMap builtinEntry)
 #eval ["uima.cas.TOP"].filterMap builtinEntry
 #eval match counterTop with | .ok _ => "ok" | .error e => toString e      -- "KeyError"
-example : (match counterTop with | .ok _ => none | .error e => some e) = some Err.keyError := by decide +kernel
+#guard (match counterTop with | .ok _ => none | .error e => some e) == some Err.keyError
+-- (checked by the kernel in `Proofs/TsXmlRoundTripDemo.lean`, `counterTop_keyError`: the reader's `strip` does not
+-- reduce in the kernel and has to be rewritten away first)
 
 /-- forces `hnd`: a redeclaration with features given twice accumulates its features -/
 def counterDup : Except Err TypeSystem :=
@@ -237,5 +243,119 @@ def counterDup : Except Err TypeSystem :=
 #eval all.map (fun h => checkPreAll h ["uima.cas.Sofa", "uima.cas.Sofa"])   -- all false
 -- … whereas a featureless entry may be repeated
 #eval all.map (fun h => checkPreAll h ["uima.cas.String", "uima.cas.String"])
+
+/-! ### `StrippedNames` (the reader strips every text; the API and the writer do not)
+
+`create_type(" x.A ")` is accepted and `to_xml` writes `<name> x.A </name>`; the reader strips it and the reloaded type
+system declares `x.A`.  Python agrees with every line (replay in the report: `TypeSystem().create_type(" x.A ")`,
+`load_typesystem(ts.to_xml())`).  A padded *range*, *element type* or *supertype* is reachable only as the name of a
+padded type (`hPadRef`): the API resolves these names. -/
+
+def hPadType : List TsOp := [.createType " x.A " ANNOTATION none]
+def hPadFeat : List TsOp :=
+  [.createType "x.B" ANNOTATION none, .createFeature "x.B" " f " "uima.cas.String" none none none,
+   .createFeature "x.B" " self" "uima.cas.String" none none none]
+def hPadRef : List TsOp :=
+  [.createType " x.P\n" ANNOTATION none, .createType "x.B" " x.P\n" none,
+   .createFeature "x.B" "f" " x.P\n" none none none,
+   .createFeature "x.B" "g" "uima.cas.FSArray" (some " x.P\n") none none]
+
+/-- (UserOnlyNoDoc, NoShadow, StrippedNames, conclusion for `d' = d`) -/
+def counterPad (ops : List TsOp) : Bool × Bool × Bool × Bool :=
+  (userOnlyNoDocB Gen.consts ops, noShadowB (run ops), strippedNamesB (run ops), checkPerm ops id)
+#guard counterPad hPadType == (true, true, false, false)
+#guard counterPad hPadFeat == (true, true, false, false)
+#guard counterPad hPadRef == (true, true, false, false)
+def counterPadType := counterPad hPadType
+def counterPadFeat := counterPad hPadFeat
+
+/-- the user types (except DocumentAnnotation) with supertype and own features (stored name, range, element type) -/
+def userDecls (ts : TypeSystem) : List (String × String × List (String × String × Option String)) :=
+  ((Json.sortByName (getTypes Gen.consts ts false)).filter (fun t => t.name != DOCUMENT_ANNOTATION)).map (fun t =>
+    (t.name, t.super.getD "", t.own.map (fun f => (f.name, f.range, f.elem))))
+def reloaded (ops : List TsOp) : Option (List (String × String × List (String × String × Option String))) :=
+  match toDescriptor Gen.consts (run ops) with
+  | .ok d => (match load Gen.consts d with | .ok ts' => some (userDecls ts') | .error _ => none)
+  | .error _ => none
+
+#guard userDecls (run hPadType) == [(" x.A ", "uima.tcas.Annotation", [])]
+#guard reloaded hPadType == some [("x.A", "uima.tcas.Annotation", [])]
+#guard userDecls (run hPadFeat) ==
+  [("x.B", "uima.tcas.Annotation", [(" f ", "uima.cas.String", none), (" self", "uima.cas.String", none)])]
+#guard reloaded hPadFeat ==
+  some [("x.B", "uima.tcas.Annotation", [("f", "uima.cas.String", none), ("self_", "uima.cas.String", none)])]
+#guard userDecls (run hPadRef) ==
+  [(" x.P\n", "uima.tcas.Annotation", []),
+   ("x.B", " x.P\n", [("f", " x.P\n", none), ("g", "uima.cas.FSArray", some " x.P\n")])]
+#guard reloaded hPadRef ==
+  some [("x.B", "x.P", [("f", "x.P", none), ("g", "uima.cas.FSArray", some "x.P")]), ("x.P", "uima.tcas.Annotation", [])]
+-- the histories of `all` have no padded names: `all.map hyps` above
+
+/-! ### descriptors with padded names
+
+On each of these the model before the repair (which stripped descriptions only) disagreed with the code
+(`KeyError` on all but `padTwice`, where it kept two types `"x.A"` and `" x.A "`); the results below are what
+`load_typesystem` produces (Python literals in the report). -/
+
+
+/-- what a load produced: the user types except DocumentAnnotation by name with supertype, description and own features
+    (stored name, range, element type, reserved flag), and the names remembered as redeclared -/
+def summary (r : Except Err TypeSystem) :
+    Option (List (String × String × Option String × List (String × String × Option String × Bool)) × List String) :=
+  match r with
+  | .error _ => none
+  | .ok ts => some
+    (((Json.sortByName (getTypes Gen.consts ts false)).filter (fun t => t.name != DOCUMENT_ANNOTATION)).map (fun t =>
+        (t.name, t.super.getD "", t.descr, t.own.map (fun f => (f.name, f.range, f.elem, f.reserved)))),
+     sortStrs ts.redeclared)
+
+/-- DKPro style (`cassis/resources/dkpro-core-types.xml`): an element type followed by a line break -/
+def padElem : Descriptor :=
+  [{ name := "x.A", super := ANNOTATION, feats := [{ name := "f", range := "uima.cas.FSArray", elem := some "x.A\n" }] }]
+/-- a padded supertype name -/
+def padSuper : Descriptor := [{ name := "x.A", super := ANNOTATION }, { name := "x.B", super := " x.A\n" }]
+/-- a padded feature name that is a reserved name, and a padded range -/
+def padSelf : Descriptor :=
+  [{ name := "x.A", super := ANNOTATION, feats := [{ name := " self ", range := " uima.cas.String " }] }]
+/-- two declarations of one type that differ only in padding: the later one wins, the features accumulate -/
+def padTwice : Descriptor :=
+  [{ name := "x.A", descr := some "one", super := ANNOTATION, feats := [{ name := "f", range := "uima.cas.String" }] },
+   { name := " x.A ", descr := some "two", super := TOP, feats := [{ name := "g", range := "uima.cas.Integer" }] }]
+/-- a padded redeclaration of a built-in type and of DocumentAnnotation -/
+def padPredef : Descriptor :=
+  [{ name := " uima.cas.String ", super := " uima.cas.TOP " },
+   { name := "\tuima.tcas.DocumentAnnotation\n", super := ANNOTATION,
+     feats := [{ name := "language ", range := "uima.cas.String" }] }]
+/-- a padded range that names a type declared with another padding -/
+def padRange : Descriptor :=
+  [{ name := "x.A", super := ANNOTATION, feats := [{ name := "f", range := " x.B " }] }, { name := " x.B", super := ANNOTATION }]
+
+/-- padding that only `str.strip()` knows: no-break space, em space, ideographic space, NEL -/
+def padUnicode : Descriptor :=
+  [{ name := "x.A\u00a0", descr := some "\u3000d\u0085", super := ANNOTATION }, { name := "x.B", super := "\u2003x.A" }]
+
+-- `strip` is `str.strip()`
+#guard strip " \t\r\n\x0b\x0c\x1c\x1d\x1e\x1f\u0085\u00a0\u1680\u2000\u200a\u2028\u2029\u202f\u205f\u3000x. A\u3000\n" == "x. A"
+#guard strip "\u200bx\u180e" == "\u200bx\u180e"      -- zero-width space, Mongolian vowel separator: not `isspace`
+#guard strip "  \n" == "" && strip "" == "" && strip "a" == "a"
+
+#guard summary (load Gen.consts padUnicode) ==
+  some ([("x.A", "uima.tcas.Annotation", some "d", []), ("x.B", "x.A", none, [])], [])
+#guard summary (load Gen.consts padElem) ==
+  some ([("x.A", "uima.tcas.Annotation", none, [("f", "uima.cas.FSArray", some "x.A", false)])], [])
+#guard summary (load Gen.consts padSuper) ==
+  some ([("x.A", "uima.tcas.Annotation", none, []), ("x.B", "x.A", none, [])], [])
+#guard summary (load Gen.consts padSelf) ==
+  some ([("x.A", "uima.tcas.Annotation", none, [("self_", "uima.cas.String", none, true)])], [])
+#guard summary (load Gen.consts padTwice) ==
+  some ([("x.A", "uima.cas.TOP", some "two",
+         [("f", "uima.cas.String", none, false), ("g", "uima.cas.Integer", none, false)])], [])
+#guard summary (load Gen.consts padPredef) == some ([], ["uima.cas.String", "uima.tcas.DocumentAnnotation"])
+#guard summary (load Gen.consts padRange) ==
+  some ([("x.A", "uima.tcas.Annotation", none, [("f", "x.B", none, false)]), ("x.B", "uima.tcas.Annotation", none, [])], [])
+-- the order of operations: strip, then key by name (`padTwice`), then the reserved-name treatment (`padSelf`)
+#guard (normalize padTwice).map (·.name) == ["x.A"]
+#guard normalize padSelf ==
+  [{ name := "x.A", super := ANNOTATION, feats := [{ name := "self", range := "uima.cas.String" }] }]
 
 end Cassis.TsXml.Check
